@@ -33,7 +33,8 @@ impl XorShiftRng {
     }
 
     pub fn next_usize(&mut self, max: usize) -> usize {
-        (self.random() * max as f64) as usize
+        // `random` can return 1.0
+        ((self.random() * max as f64) as usize).min(max.saturating_sub(1))
     }
 
     pub fn random(&mut self) -> f64 {
@@ -41,6 +42,9 @@ impl XorShiftRng {
     }
 
     pub fn random_range(&mut self, lower: i64, upper: i64) -> i64 {
-        (self.random() * (upper - lower) as f64) as i64 + lower
+        // the distance between two i64 values does not fit into an i64
+        let span = (upper as i128 - lower as i128) as f64;
+        let rv = (self.random() * span) as i128 + lower as i128;
+        rv.clamp(i64::MIN as i128, i64::MAX as i128) as i64
     }
 }
